@@ -46,7 +46,6 @@ type EntrySpec struct {
 type Exec struct {
 	Prog     *ssa.Program
 	Ctx      *Ctx
-	Solver   *Solver
 	Spec     *EntrySpec
 	Bounds   map[string]int
 	MaxConc  int
@@ -70,6 +69,13 @@ type Exec struct {
 	baseHeap    map[int]*HObj
 	baseNext    int
 	inInit      bool
+	ForkSites   map[string]int
+	extra       map[string]*Solver
+	primary     string
+	dumpSeq     int
+	fastTimeout, finalTimeout time.Duration
+	NoIfConv    bool
+	IfConverted int
 	LabelPrefixes []string
 	baseGhost   map[string]Value
 	baseOnce    map[string]bool
@@ -329,6 +335,21 @@ func shortFile(f string) string {
 
 func (ex *Exec) forkBool(st *State, cond *Term) []*State {
 	ex.Forks++
+	if ex.ForkSites != nil {
+		w := st.where()
+		if i := strings.Index(w[1:], "\n"); i > 0 {
+			w = w[:i+1]
+		}
+		fr := st.top()
+		if fr.Block != nil && fr.IP < len(fr.Block.Instrs) {
+			if iff, ok := fr.Block.Instrs[fr.IP].(*ssa.If); ok {
+				w += fmt.Sprintf(" block %d cond@%v", fr.Block.Index, ex.Prog.Fset.Position(iff.Cond.Pos()))
+			} else {
+				w += fmt.Sprintf(" instr %T", fr.Block.Instrs[fr.IP])
+			}
+		}
+		ex.ForkSites[strings.TrimSpace(w)]++
+	}
 	rt := st.feasible(cond)
 	var out []*State
 	if rt == Unsat {
@@ -390,34 +411,85 @@ func (ex *Exec) forkValues(st *State, t *Term, max int) []*State {
 	return out
 }
 
-func (ex *Exec) check(as []*Term, want []*Term) (Result, map[int]*big.Int) {
-	return ex.Solver.Check(as, want)
+// portfolio order after the primary solver
+var portfolio = []string{"z3", "cvc5-int", "z3-new", "cvc5"}
+
+func (ex *Exec) solver(kind string, final bool) *Solver {
+	key := kind + "/fast"
+	to := ex.fastTimeout
+	if final {
+		key = kind + "/final"
+		to = ex.finalTimeout
+	}
+	if s := ex.extra[key]; s != nil {
+		return s
+	}
+	s, err := NewSolver(ex.Ctx, kind, to)
+	if err != nil {
+		return nil
+	}
+	if ex.extra == nil {
+		ex.extra = map[string]*Solver{}
+	}
+	ex.extra[key] = s
+	return s
 }
 
-// checkFinal is used for obligations; escalates to other back ends on unknown.
-func (ex *Exec) checkFinal(as []*Term, want []*Term) (Result, map[int]*big.Int) {
-	r, m := ex.Solver.Check(as, want)
-	if r != Unknown {
-		return r, m
-	}
-	for _, kind := range []string{"cvc5-int", "z3-new", "cvc5"} {
-		if kind == ex.Solver.kind {
+func (ex *Exec) tryKinds(kinds []string, final bool, as []*Term, want []*Term) (Result, map[int]*big.Int) {
+	for i, kind := range kinds {
+		s := ex.solver(kind, final)
+		if s == nil {
 			continue
 		}
-		s2, err := NewSolver(ex.Ctx, kind, ex.Solver.timeout)
-		if err != nil {
-			continue
+		before := len(s.Errors)
+		r, m := s.Check(as, want)
+		if i > 0 {
+			ex.Results.Escalations++
 		}
-		r, m = s2.Check(as, want)
-		ex.Results.SolverS[kind] += s2.Time.Seconds()
-		ex.Results.Escalations++
-		ok := len(s2.Errors) == 0
-		s2.Close()
-		if r != Unknown && ok {
+		if r != Unknown && len(s.Errors) == before {
 			return r, m
+		}
+		if d := os.Getenv("VERIF_DUMPQ"); d != "" && i == 0 {
+			ex.dumpSeq++
+			os.WriteFile(fmt.Sprintf("%s/u%03d.smt2", d, ex.dumpSeq), []byte(ex.Ctx.Dump(as)), 0o644)
 		}
 	}
 	return Unknown, nil
+}
+
+// check is the feasibility query: short timeout, primary back end then one alternative.
+// Unknown keeps both branches (sound: obligations on an infeasible path are unsat).
+func (ex *Exec) check(as []*Term, want []*Term) (Result, map[int]*big.Int) {
+	alt := "cvc5-int"
+	if ex.primary == "cvc5-int" {
+		alt = "z3"
+	}
+	return ex.tryKinds([]string{ex.primary, alt}, false, as, want)
+}
+
+// checkFinal decides obligations: long timeout, whole portfolio.
+func (ex *Exec) checkFinal(as []*Term, want []*Term) (Result, map[int]*big.Int) {
+	r, m := ex.tryKinds([]string{ex.primary}, false, as, want)
+	if r != Unknown {
+		return r, m
+	}
+	if d := os.Getenv("VERIF_DUMPQ"); d != "" {
+		ex.dumpSeq++
+		os.WriteFile(fmt.Sprintf("%s/q%03d.smt2", d, ex.dumpSeq), []byte(ex.Ctx.Dump(as)), 0o644)
+	}
+	kinds := []string{ex.primary}
+	for _, k := range portfolio {
+		if k != ex.primary {
+			kinds = append(kinds, k)
+		}
+	}
+	return ex.tryKinds(kinds, true, as, want)
+}
+
+func (ex *Exec) closeSolvers() {
+	for _, s := range ex.extra {
+		s.Close()
+	}
 }
 
 func (ex *Exec) step(st *State) {
@@ -793,6 +865,9 @@ func (ex *Exec) exec(st *State, fr *Frame, instr ssa.Instruction) {
 		ex.execGo(st, fr, in)
 	case *ssa.If:
 		cond := st.get(fr, in.Cond).(*Term)
+		if _, isKnown := st.known(cond); !isKnown && !ex.NoIfConv && ex.ifConvert(st, fr, cond) {
+			return
+		}
 		if st.decide(cond) {
 			ex.jump(st, fr, fr.Block.Succs[0])
 		} else {
